@@ -185,6 +185,20 @@ func (t *Tree) Author(parent int) (*sn.Node, error) {
 	return sn.OpenOn(t.Blocks[parent].Canon.Clone(), t.Opts.Cfg)
 }
 
+// onChain: is txid part of a block on the chain genesis..block i?
+func (t *Tree) onChain(i int, txid []byte) bool {
+	for _, j := range t.Path(i) {
+		if b := t.Blocks[j].Block; b != nil {
+			for _, x := range b.Transactions {
+				if string(x.Txid) == string(txid) {
+					return true
+				}
+			}
+		}
+	}
+	return false
+}
+
 // AddBlock generates a child of parent with up to ntx fresh transactions (plus, when
 // SharedTx is on, possibly transactions copied from a sibling) and computes its canon image.
 // extra transactions (already valid on parent state) are admitted first.
@@ -225,6 +239,38 @@ func (t *Tree) AddBlock(rng *rand.Rand, parent int, ntx int, extra []*pb.Transac
 				k++
 			} else {
 				break
+			}
+		}
+	}
+	if t.Opts.SharedTx && len(t.Blocks) > 2 && rng.Intn(3) == 0 {
+		// the same transaction at DIFFERENT heights of competing branches: try the transactions of
+		// a block that is not an ancestor of this one (they are admitted only where still valid)
+		onPath := map[int]bool{}
+		for _, j := range t.Path(parent) {
+			onPath[j] = true
+		}
+		var others []int
+		for _, b := range t.Blocks {
+			if b.Idx > 0 && !onPath[b.Idx] {
+				others = append(others, b.Idx)
+			}
+		}
+		if len(others) > 0 {
+			far := t.Blocks[others[rng.Intn(len(others))]]
+			have := map[string]bool{}
+			for _, x := range txs {
+				have[string(x.Txid)] = true
+			}
+			k := 0
+			for _, x := range far.Block.Transactions {
+				if x.Coinbase || k >= 2 || have[string(x.Txid)] || t.onChain(parent, x.Txid) {
+					continue
+				}
+				c := sn.CloneTx(x)
+				c.Blockid = nil
+				if admit(c, "shared-far") {
+					k++
+				}
 			}
 		}
 	}
